@@ -274,7 +274,16 @@ pub fn c10_case(rng: &mut Rng, st: &mut Stats) -> CaseOutcome {
                 }
                 Op::SetOffset(o) => {
                     executed.push(op.clone());
-                    exec_op(&mut it, op, &mut last_peek);
+                    // a third of the resets go through the consuming with_offset on the used
+                    // iterator (the index of the reset in the history decides, so that replays of
+                    // the executed list take the same path)
+                    if (executed.len() + *o) % 3 == 0 {
+                        it = it.with_offset(*o);
+                        last_peek = None;
+                        st.count("reset_through_with_offset_mid_history");
+                    } else {
+                        exec_op(&mut it, op, &mut last_peek);
+                    }
                     st.count("reset");
                     if *o < pos {
                         st.count("reset_backwards");
@@ -330,6 +339,7 @@ pub fn c10(tier: Tier) -> i32 {
     .floor("advance_to_after_peek_after_reset", 1500)
     .floor("reset_in_lookahead_config", 2000)
     .floor("next_after_reset_checked", 20_000)
+    .floor("reset_through_with_offset_mid_history", 2_000)
     .assume("the baseline path (fresh scanner, fresh iterator, offset 0) is the reference; its own tokenization is judged by C01/C04/C05")
     .assume("offsets are on character boundaries or beyond the input length");
     finish(&ctx, res, report)
